@@ -151,3 +151,64 @@ M("main_nfev_restored_twice", "nfev of the checkpoint counted twice", ["C05", "C
 M("main_jac_alias_G", "result.jac is the stored G[-1] (stale after a rejected update)", ["C05", "C07"],
   ("lbfgsb/main.py", "    return OptimizeResult(\n        fun=f0,\n        jac=grad,\n        nfev=sf.nfev,\n        njev=sf.ngev,\n        nit=istate.nit,\n        status=istate.warnflag,\n        message=istate.task_str,\n        x=x,\n        success=istate.is_success,\n        hess_inv=LbfgsInvHessProduct(\n            np.atleast_2d(np.diff(np.array(X), axis=0)),\n            np.atleast_2d(np.diff(np.array(G), axis=0)),",
    "    return OptimizeResult(\n        fun=f0,\n        jac=G[-1],\n        nfev=sf.nfev,\n        njev=sf.ngev,\n        nit=istate.nit,\n        status=istate.warnflag,\n        message=istate.task_str,\n        x=x,\n        success=istate.is_success,\n        hess_inv=LbfgsInvHessProduct(\n            np.atleast_2d(np.diff(np.array(X), axis=0)),\n            np.atleast_2d(np.diff(np.array(G), axis=0)),"))
+
+# --- main.py: termination --------------------------------------------------------
+M("main_nit_eq", "pinned defect: final classification tests nit == maxiter (reverse of fix 87392b5)", ["C04"],
+  ("lbfgsb/main.py", "    elif istate.nit >= maxiter:\n", "    elif istate.nit == maxiter:\n"))
+M("main_ck_return", "pinned defect: early return hands back the checkpoint with its old message (reverse of fix 481d5cf)", ["C04"],
+  ("lbfgsb/main.py", "            res = copy.copy(checkpoint)\n            res[\"message\"] = istate.task_str\n            res[\"success\"] = istate.is_success\n            res[\"status\"] = istate.warnflag\n            return res\n",
+   "            return checkpoint\n"))
+M("main_ls_cap_ignores_maxfun", "line-search cap ignores the remaining maxfun budget", ["C04"],
+  ("lbfgsb/main.py", "            min(maxls, maxfun - sf.nfev),\n", "            maxls,\n"))
+M("main_gtol_in_loop", "callable gtol evaluated at every loop test", ["C04"],
+  ("lbfgsb/main.py", "    while (\n        projgr(x, grad, lb, ub) > _gtol\n", "    while (\n        projgr(x, grad, lb, ub) > (gtol() if callable(gtol) else gtol)\n"))
+M("main_iter_not_success", "iteration limit reported with success False", ["C04"],
+  ("lbfgsb/main.py", "        istate.task_str = \"STOP: TOTAL NO. of ITERATIONS REACHED LIMIT\"\n        istate.is_success = True\n",
+   "        istate.task_str = \"STOP: TOTAL NO. of ITERATIONS REACHED LIMIT\"\n        istate.is_success = False\n"))
+M("main_loop_nfev_le", "loop guard nfev <= maxfun (one iteration too many)", ["C04"],
+  ("lbfgsb/main.py", "        and sf.nfev < maxfun\n", "        and sf.nfev <= maxfun\n"))
+M("main_loop_nit_le", "loop guard nit <= maxiter (one iteration too many)", ["C04", "C07", "C06"],
+  ("lbfgsb/main.py", "        and istate.nit < maxiter\n", "        and istate.nit <= maxiter\n"))
+M("main_target_lt", "target test uses f < ftarget... reported as target when not reached: f0 >= ftarget inverted", ["C04"],
+  ("lbfgsb/main.py", "    if f0 > ftarget:\n        return False\n", "    if f0 > ftarget + 1e-3 * abs(ftarget):\n        return False\n"))
+M("main_pgtol_on_grad_norm", "PGTOL classification on a stale gradient norm (uses plain gradient of interior variables)", ["C04"],
+  ("lbfgsb/main.py", "    if projgr(x, grad, lb, ub) <= _gtol:\n        istate.task_str = \"CONVERGENCE: NORM_OF_PROJECTED_GRADIENT_<=_PGTOL\"",
+   "    if projgr(x, grad, lb, ub) <= 10 * _gtol:\n        istate.task_str = \"CONVERGENCE: NORM_OF_PROJECTED_GRADIENT_<=_PGTOL\""))
+M("sf_fd_fixed_nan", "pinned defect: nan finite-difference gradient for lb == ub (reverse of fix 41f24f4)", ["C04", "C16"],
+  ("lbfgsb/scalar_function.py", "                if is_fixed.any():\n                    self.g = np.where(is_fixed, 0.0, self.g)\n", ""))
+
+# --- main.py: checkpoint restart -------------------------------------------------
+M("ck_forward_cumsum", "pinned defect: forward cumulative sum when restoring the history (reverse of fix c5b19aa)", ["C06", "C07"],
+  ("lbfgsb/main.py", "        checkpoint.x - np.cumsum(checkpoint.hess_inv.sk[::-1], axis=0)[::-1],\n        checkpoint.jac - np.cumsum(checkpoint.hess_inv.yk[::-1], axis=0)[::-1],\n",
+   "        checkpoint.x - np.cumsum(checkpoint.hess_inv.sk, axis=0),\n        checkpoint.jac - np.cumsum(checkpoint.hess_inv.yk, axis=0),\n"))
+M("ck_no_reinsert", "current point not re-inserted into the history at restart", ["C06"],
+  ("lbfgsb/main.py", "    if len(X) > 0:\n        # only happens if checkpoint is provided (L-BFGS-B restart)\n        mats = update_lbfgs_matrices(",
+   "    if False:\n        # only happens if checkpoint is provided (L-BFGS-B restart)\n        mats = update_lbfgs_matrices("))
+M("ck_keep_oldest", "oldest pairs kept when maxcor shrinks at restart", ["C06"],
+  ("lbfgsb/main.py", "        if len(X) > maxcor:\n            X.popleft()\n            G.popleft()\n        X.append(x)\n        G.append(g)\n",
+   "        if len(X) >= maxcor:\n            continue\n        X.append(x)\n        G.append(g)\n"))
+M("ck_nit_not_restored", "nit not restored from the checkpoint", ["C06", "C04"],
+  ("lbfgsb/main.py", "    if checkpoint is not None:\n        istate.nit = checkpoint.nit\n", "    if checkpoint is not None:\n        pass\n"))
+M("ck_f0_recomputed_wrong", "restart takes f0 from the checkpoint but forgets the gradient scaling sign (uses -jac)", ["C06"],
+  ("lbfgsb/main.py", "        grad = checkpoint.jac\n", "        grad = -checkpoint.jac\n"))
+M("ck_only_x_restored", "history restored for x but gradients taken unshifted", ["C06"],
+  ("lbfgsb/main.py", "        checkpoint.jac - np.cumsum(checkpoint.hess_inv.yk[::-1], axis=0)[::-1],\n", "        checkpoint.jac - np.cumsum(checkpoint.hess_inv.yk[::-1], axis=0)[::-1] * 0.5,\n"))
+M("ls_init_step_one", "pinned defect: line search starts at 1.0 beyond the max feasible step (reverse of the initial-step fix)", ["C06"],
+  ("lbfgsb/linesearch.py", "        steplength_0 = min(1.0, max_steplength)\n", "        steplength_0 = 1.0\n"))
+
+# --- main.py: callback state ------------------------------------------------------
+M("cb_x_alias", "pinned defect: callback state.x aliases the live iterate (reverse of fix c878344)", ["C07"],
+  ("lbfgsb/main.py", "                        message=istate.task_str,\n                        x=np.copy(x),\n", "                        message=istate.task_str,\n                        x=x,\n"))
+M("cb_nit_off_by_one", "pinned defect: callback state.nit is k-1 (reverse of fix 02bb3b3)", ["C07"],
+  ("lbfgsb/main.py", "                        nit=istate.nit + 1,\n", "                        nit=istate.nit,\n"))
+M("cb_before_memory_update", "callback state built from the memory before the update of this iteration", ["C07", "C18"],
+  ("lbfgsb/main.py", "                        hess_inv=LbfgsInvHessProduct(\n                            np.atleast_2d(np.diff(np.array(X), axis=0)),\n                            np.atleast_2d(np.diff(np.array(G), axis=0)),\n                        ),\n                    ),\n                ):",
+   "                        hess_inv=LbfgsInvHessProduct(\n                            np.atleast_2d(np.diff(np.array(X)[:-1], axis=0)),\n                            np.atleast_2d(np.diff(np.array(G)[:-1], axis=0)),\n                        ),\n                    ),\n                ):"))
+M("cb_xk_alias", "xk handed to the callback is the live iterate", ["C07"],
+  ("lbfgsb/main.py", "                if callback(\n                    np.copy(x),\n", "                if callback(\n                    x,\n"))
+M("cb_nfev_stale", "callback state carries nfev of the previous iteration", ["C07", "C05"],
+  ("lbfgsb/main.py", "        f0_old = copy.copy(f0)\n\n        # find cauchy point", "        f0_old = copy.copy(f0)\n        _nfev_prev = sf.nfev\n\n        # find cauchy point"),
+  ("lbfgsb/main.py", "                        jac=grad,\n                        nfev=sf.nfev,\n                        njev=sf.ngev,\n                        nit=istate.nit + 1,", "                        jac=grad,\n                        nfev=_nfev_prev,\n                        njev=sf.ngev,\n                        nit=istate.nit + 1,"))
+M("cb_false_resets_memo", "a callback (even returning False) changes the run: extra evaluation after the callback", ["C07"],
+  ("lbfgsb/main.py", "                    istate.task_str = \"STOP: USER CALLBACK\"\n                    istate.is_success = True\n",
+   "                    istate.task_str = \"STOP: USER CALLBACK\"\n                    istate.is_success = True\n                else:\n                    sf.update_x(x + 0.0)\n                    f0 = sf.fun(x)\n"))
